@@ -1,10 +1,16 @@
 import PyElf.Driver.Json
+import PyElf.Driver.C01
 import PyElf.Spec.Notes
+import PyElf.Spec.NotesEdge
+import PyElf.Spec.ElfImage
+import PyElf.Spec.ElfImageFast
 import PyElf.Model.Env
 import PyElf.Model.Notes
+import PyElf.Model.NotesFile
+import PyElf.Spec.NotesFile
 open Lean
 namespace PyElf.Driver.C14
-open PyElf PyElf.Spec
+open PyElf PyElf.Spec PyElf.Spec.C14
 
 def jOptHex (j : Json) (k : String) : Except String (Option Bytes) := do
   match j.getObjVal? k with
@@ -56,8 +62,180 @@ def listJson (r : R (List Val)) : Json := resJson (fun vs => Json.arr (vs.map Va
 def shdrOf (offset size : Nat) : Val := .record [("sh_offset", .int offset), ("sh_size", .int size)]
 def phdrOf (offset size : Nat) : Val := .record [("p_offset", .int offset), ("p_filesz", .int size)]
 
+/-! ### whole files (fourth wave): descriptions → bytes by the Spec assembler, the hypotheses of the
+    file theorems decided, the file-level model -/
+
+def rawIs (fs : Fields) (k : String) (v : Int) : Bool :=
+  match Fields.get? fs k with
+  | some (.int x) => x == v
+  | _ => false
+
+/-- hypotheses of `file_section_notes_exact` about section `i` -/
+def secDom (d : ElfDesc) (i : Nat) (ns : List Note) (tail : Bytes) : Bool :=
+  match d.sections[i]? with
+  | some sd =>
+    rawIs sd.hdr "sh_type" 7 && ns.all (Note.wf d.cfg) && decide (tail.length < 12) &&
+    (match sd.body with | some b => b == encodeNotes d.cfg ns ++ tail | none => false) &&
+    getNatD sd.hdr "sh_size" == (encodeNotes d.cfg ns).length + tail.length
+  | none => false
+
+/-- hypotheses of `file_segment_notes_exact`: segment `j` lies in the body of section `i`, `k` bytes in -/
+def segDomIn (d : ElfDesc) (j i k : Nat) (ns : List Note) (tail : Bytes) : Bool :=
+  let X := encodeNotes d.cfg ns ++ tail
+  match d.segments[j]?, d.sections[i]? with
+  | some p, some sd =>
+    rawIs p "p_type" 4 && ns.all (Note.wf d.cfg) && decide (tail.length < 12) &&
+    (match sd.body with | some b => decide (k ≤ b.length) && (b.drop k).take X.length == X | none => false) &&
+    getNatD p "p_offset" == getNatD sd.hdr "sh_offset" + k && getNatD p "p_filesz" == X.length
+  | _, _ => false
+
+/-- hypotheses of `file_segment_notes_over_sections` -/
+def segDomAdj (d : ElfDesc) (j : Nat) (is : List Nat) (ns : List Note) (tail : Bytes) : Bool :=
+  let X := encodeNotes d.cfg ns ++ tail
+  match d.segments[j]? with
+  | some p =>
+    rawIs p "p_type" 4 && ns.all (Note.wf d.cfg) && decide (tail.length < 12) &&
+    (match adjacentBodies d (getNatD p "p_offset") is with | some B => B == X | none => false) &&
+    getNatD p "p_filesz" == X.length
+  | none => false
+
+def descWf (d : ElfDesc) : Bool :=
+  (match d.regions with
+   | some rs => regionsDisjoint (sortRegions rs)
+   | none => false) && d.wfZ Model.elfEnv && (match d.observe Model.elfEnv with | .ok _ => true | .error _ => false)
+
+def modelSec (bytes : Bytes) (i : Nat) : R (List Val) :=
+  Model.C14.fileSectionNotes Model.elfEnv Model.elfStructsFor Model.machineClassOf bytes i
+def modelSeg (bytes : Bytes) (j : Nat) : R (List Val) :=
+  Model.C14.fileSegmentNotes Model.elfEnv Model.elfStructsFor Model.machineClassOf bytes j
+
+def valsJson (vs : List Val) : Json := Json.arr (vs.map Val.toJson).toArray
+
+def secOffset (d : ElfDesc) (i : Nat) : Nat :=
+  match d.sections[i]? with | some sd => getNatD sd.hdr "sh_offset" | none => 0
+def segOffset (d : ElfDesc) (j : Nat) : Nat :=
+  match d.segments[j]? with | some p => getNatD p "p_offset" | none => 0
+
+def fileQuery (d : ElfDesc) (bytes : Bytes) (q : Json) : Except String Json := do
+  let t ← jStr q "t"
+  let ns ← (← jArr q "notes").mapM parseNote
+  let tail ← jHex q "tail"
+  match t with
+  | "sec" =>
+    let i ← jNat q "i"
+    return Json.mkObj [("dom", Json.bool (secDom d i ns tail)), ("expect", valsJson (obsNotes d.cfg (secOffset d i) ns)),
+                       ("model", listJson (modelSec bytes i))]
+  | "segin" =>
+    let j ← jNat q "j"
+    return Json.mkObj [("dom", Json.bool (segDomIn d j (← jNat q "i") (← jNat q "pre") ns tail)),
+                       ("expect", valsJson (obsNotes d.cfg (segOffset d j) ns)), ("model", listJson (modelSeg bytes j))]
+  | "segadj" =>
+    let j ← jNat q "j"
+    let is ← (← jArr q "is").mapM jNatOf
+    return Json.mkObj [("dom", Json.bool (segDomAdj d j is ns tail)),
+                       ("expect", valsJson (obsNotes d.cfg (segOffset d j) ns)), ("model", listJson (modelSeg bytes j))]
+  | "any" =>
+    -- no claim: the model only (classes without `iter_notes`, indices out of range)
+    let sec := (jNat q "i").toOption.map (modelSec bytes)
+    let seg := (jNat q "j").toOption.map (modelSeg bytes)
+    return Json.mkObj [("dom", Json.bool false),
+                       ("model", match sec, seg with | some r, _ => listJson r | none, some r => listJson r | _, _ => Json.null)]
+  | _ => throw s!"C14 file: unknown query {t}"
+
+/-! ### the edge of the domain: a last note running past the extent end, a header the file does not hold,
+    a name without terminator -/
+
+structure Edge where
+  extent : Bytes          -- what the file holds from the extent's offset on (at least)
+  size : Nat              -- the declared extent size
+  /-- hypotheses on the generated side (the placement in the file is checked by `edgeDomAt`) -/
+  dom : Bool
+  /-- the bytes the file must begin with at the extent's offset -/
+  pref : Bytes
+  expect : Nat → R (List Val)
+
+def parseEdge (cfg : ElfCfg) (req : Json) : Except String Edge := do
+  let ns ← (← jArr req "notes").mapM parseNote
+  let rest ← jHex req "rest"
+  let extra ← jNat req "extra"
+  let enc := encodeNotes cfg ns
+  let base := cfgWf cfg && ns.all (Note.wf cfg)
+  match ← jStr req "mode" with
+  | "bare" =>
+    let n ← parseNote (← req.getObjVal? "last")
+    let bare := encNoteBare cfg n
+    -- extra = 0: the extent ends exactly at the end of the unpadded note
+    let size := if extra = 0 then enc.length + bare.length else enc.length + 12 + (extra - 1)
+    return { extent := enc ++ bare ++ rest, size, pref := enc ++ bare,
+             dom := base && n.wf cfg && decide (enc.length + 12 ≤ size) && decide (size < enc.length + (encNote cfg n).length + 12),
+             expect := fun off => .ok (obsNotes cfg off (ns ++ [n])) }
+  | "trunc" =>
+    return { extent := enc ++ rest, size := enc.length + 12 + extra, pref := enc,
+             dom := base && decide (rest.length < 12), expect := fun _ => .error .elfParseError }
+  | "nonul" =>
+    let namesz ← jNat req "namesz"
+    let descsz ← jNat req "descsz"
+    let type ← jNat req "type"
+    return { extent := enc ++ encNhdr cfg namesz descsz type ++ rest, size := enc.length + 12 + extra,
+             pref := enc ++ encNhdr cfg namesz descsz type,
+             dom := base && decide (0 < namesz) && decide (namesz < 2 ^ 32) && decide (descsz < 2 ^ 32) && decide (type < 2 ^ 32),
+             expect := fun _ => .error .structError }
+  | "cut" =>
+    let owner ← jOptHex req "owner"
+    let type ← jNat req "type"
+    let descsz ← jNat req "descsz"
+    let cut := encNoteCut cfg owner type descsz rest
+    let size := enc.length + 12 + extra
+    return { extent := enc ++ cut, size, pref := enc ++ cut,
+             dom := base && ownerWf owner && decide ((nameField owner).length < 2 ^ 32) && decide (type < 2 ^ 32) &&
+               decide (descsz < 2 ^ 32) && decide (descKind cfg.core owner type = .raw) && decide (rest.length ≤ descsz) &&
+               decide (size < enc.length + (12 + paddedLen (nameField owner).length + paddedLen descsz) + 12),
+             expect := fun off => .ok (obsNotes cfg off ns ++ [obsNoteCut cfg (off + enc.length) owner type descsz rest]) }
+  | m => throw s!"C14 edge: unknown mode {m}"
+
+/-- the hypotheses that speak about the file: it begins with `pref` at `off`, and what follows is as the
+    theorem of the mode requires -/
+def edgeDomAt (cfg : ElfCfg) (req : Json) (e : Edge) (file : Bytes) (off : Nat) : Except String Bool := do
+  let starts := (file.drop off).take e.pref.length == e.pref
+  let after := file.drop (off + e.pref.length)
+  match ← jStr req "mode" with
+  | "bare" => return e.dom && starts
+  | "trunc" => return e.dom && starts && decide (after.length < 12)
+  | "cut" => return e.dom && starts && after.isEmpty
+  | "nonul" =>
+    let namesz ← jNat req "namesz"
+    return e.dom && starts && (after.take (namesz + pad4 namesz)).all (· != 0)
+  | _ => return false
+
+def handleFile (req : Json) : Except String Json := do
+  let k ← jStr req "k"
+  let d ← C01.descOfJson (← req.getObjVal? "ast")
+  let tail := (jNat req "tail").toOption.getD 0
+  match d.assembleFast tail with
+  | none => return Json.mkObj [("wf", Json.bool false), ("why", "not encodable")]
+  | some bytes =>
+    match k with
+    | "file" =>
+      let qs ← (← jArr req "q").mapM (fileQuery d bytes)
+      return Json.mkObj [("wf", Json.bool (descWf d)), ("bytes", jHexOf bytes), ("q", Json.arr qs.toArray)]
+    | "edge_run" =>
+      let i ← jNat req "i"
+      let j ← jNat req "j"
+      let e ← parseEdge d.cfg req
+      let off := secOffset d i
+      let dom ← edgeDomAt d.cfg req e bytes off
+      -- the section and the segment are the extent the edge case was generated for
+      let placed := getNatD ((d.sections[i]?.map (·.hdr)).getD []) "sh_size" == e.size &&
+        segOffset d j == off && getNatD (d.segments[j]?.getD []) "p_filesz" == e.size &&
+        rawIs ((d.sections[i]?.map (·.hdr)).getD []) "sh_type" 7 && rawIs (d.segments[j]?.getD []) "p_type" 4
+      return Json.mkObj [("wf", Json.bool (descWf d)), ("bytes", jHexOf bytes), ("dom", Json.bool (dom && placed)),
+                         ("expect", listJson (e.expect off)), ("model", listJson (modelSec bytes i)),
+                         ("model_seg", listJson (modelSeg bytes j))]
+    | _ => throw s!"C14: unknown kind {k}"
+
 def handle (req : Json) : Except String Json := do
   let k ← jStr req "k"
+  if k == "file" || k == "edge_run" then return ← handleFile req
   let cfg ← parseCfg req
   let some S := Model.elfStructsFor cfg | throw "C14: no such elf bundle"
   match k with
@@ -85,6 +263,9 @@ def handle (req : Json) : Except String Json := do
     let sec := Model.noteSectionIterNotes S Model.elfEnv cfg.cls data (shdrOf offset size)
     let seg := Model.noteSegmentIterNotes S Model.elfEnv cfg.cls data (phdrOf offset size)
     return Json.mkObj [("model", listJson sec), ("model_seg", listJson seg)]
+  | "edge" =>
+    let e ← parseEdge cfg req
+    return Json.mkObj [("bytes", jHexOf e.extent), ("size", jN e.size), ("dom", Json.bool e.dom)]
   | "stabs_enc" =>
     let ss ← (← jArr req "stabs").mapM parseStab
     return Json.mkObj [("bytes", jHexOf (encodeStabs cfg.le ss)), ("wf", Json.bool (ss.all Stab.wf))]
